@@ -235,7 +235,40 @@ func asOG(e error, target *pointindex.OutsideGridError) bool {
 // runSnap calls the implementation with panic recovery and a watchdog.
 func runSnap(g *Grid, poly [][]Pt, ids []int, cfg snap.Config, timeout time.Duration) *Result {
 	fp, _ := g.toFloatPoly(poly)
+	skippedPolygonBefore(g, poly, ids, cfg, timeout)
 	return runSnapFloat(g, fp, ids, cfg, timeout)
+}
+
+// skippedPolygonBefore: what was snapped before must not matter to ANY property.  Before one call in four (chosen by the
+// polygon itself, not by the random stream) another polygon is snapped with the same tile matrix set, ids and settings:
+// its vertices lie half-way along this polygon's edges (inside pixels these edges pass through) and its last vertex lies
+// outside the grid, so that with ignore-outside-grid it is skipped after its other vertices were looked at.  State that
+// survives a call (a reused index, a cache, a pool) then shows as vertices, routes or shapes this polygon does not have.
+func skippedPolygonBefore(g *Grid, poly [][]Pt, ids []int, cfg snap.Config, timeout time.Duration) {
+	if len(poly) == 0 || len(poly[0]) < 2 {
+		return
+	}
+	var h uint64 = 1469598103934665603
+	for _, r := range poly {
+		for _, p := range r {
+			h = (h ^ uint64(p[0])) * 1099511628211
+			h = (h ^ uint64(p[1])) * 1099511628211
+		}
+	}
+	if h%4 != 0 {
+		return
+	}
+	ring := poly[0]
+	var mids []Pt
+	for k := range ring {
+		a, b := ring[k], ring[(k+1)%len(ring)]
+		mids = append(mids, Pt{(a[0] + b[0]) / 2, (a[1] + b[1]) / 2})
+	}
+	mids = append(mids, Pt{g.Ext[0] - g.Res, ring[0][1]})
+	cfgI := cfg
+	cfgI.IgnoreOutsideGrid = true
+	fp, _ := g.toFloatPoly([][]Pt{mids})
+	_ = runSnapFloat(g, fp, ids, cfgI, timeout)
 }
 
 func runSnapFloat(g *Grid, fp geom.Polygon, ids []int, cfg snap.Config, timeout time.Duration) *Result {
